@@ -737,7 +737,7 @@ fn main() {
 
     // (n, max parents, with skip sets)
     let plans: Vec<(usize, usize, bool)> = ctx.pick(
-        vec![(5, 3, true), (6, 2, false)],
+        vec![(5, 3, true)],
         vec![(6, 3, true)],
     );
     let chain_len = ctx.pick(64, 256);
